@@ -309,17 +309,17 @@ def check_expr(ctx, e):
     # the same value given later: add_class() / add_style() / item assignment / update()
     t1 = ht.div("x")
     t1.add_class(v)
-    t2 = ht.span("y", class_="p & q")
+    t2 = ht.span("y", class_="p q")    # (the plain neighbour has nothing to escape: how plain text is escaped is C03's subject)
     t2.add_class(v, prepend=True)
     t3 = ht.div("x")
     t3.attrs["class"] = v
-    t4 = ht.div("x", class_="p & q")
+    t4 = ht.div("x", class_="p q")
     t4.attrs.update({"class": v}, class_=v)
-    late = [(t1, ' class="%s"' % s, "add_class"), (t2, ' class="%s p &amp; q"' % s, "add_class(prepend)"),
+    late = [(t1, ' class="%s"' % s, "add_class"), (t2, ' class="%s p q"' % s, "add_class(prepend)"),
             (t3, ' class="%s"' % s, "attrs[...] = "), (t4, ' class="%s %s"' % (s, s), "attrs.update")]
     if s.endswith(";") and type(v) is ht.HTML:
         late.append((ht.div("x").add_style(v), ' style="%s"' % s, "add_style"))
-        late.append((ht.div("x", style="a: 'b';").add_style(v, prepend=True), ' style="%s a: &apos;b&apos;;"' % s, "add_style(prepend)"))
+        late.append((ht.div("x", style="a: b;").add_style(v, prepend=True), ' style="%s a: b;"' % s, "add_style(prepend)"))
     for t_, want, what in late:
         c = t_.get_html_string()
         ctx.count("oracle.late_attr_route")
